@@ -30,6 +30,7 @@ import (
 	"github.com/tink-crypto/tink-go/v2/key"
 	"github.com/tink-crypto/tink-go/v2/keyset"
 	"github.com/tink-crypto/tink-go/v2/signature/slhdsa"
+	subtlerandom "github.com/tink-crypto/tink-go/v2/subtle/random"
 	"github.com/tink-crypto/tink-go/v2/verifsim/catalog"
 	"github.com/tink-crypto/tink-go/v2/verifsim/core"
 	"github.com/tink-crypto/tink-go/v2/verifsim/simrng"
@@ -48,7 +49,7 @@ func TestMain(m *testing.M) {
 		"second-handle-same-key", "subtle-constructor", "writer-repeat-on-primitive", "interleaved-keys", "full-sweep", "edge-position",
 		"field-delivered-by-short-reads", "ecdh-recompute-x25519", "ecdh-recompute-nist", "p521-masked-byte-flipped", "mlkem-consecutive",
 		"xwing-both-halves", "ecies-dem-iv", "ecies-compressed-point", "composite-two-draws", "surplus-bytes-not-judged", "keygen-symmetric-copy",
-		"keygen-asymmetric-copy", "keygen-asymmetric-fn", "keygen-nonrandomized-type", "pooled-key", "jwt-signature", "id-spread-batch", "keyid-spread-judged",
+		"keygen-asymmetric-copy", "keygen-asymmetric-fn", "keygen-nonrandomized-type", "pooled-key", "jwt-signature", "id-spread-batch", "keyid-spread-judged", "caller-appends-to-random-bytes",
 		"kms-envelope-fresh-dek", "manager-delete", "manager-setprimary", "manager-disable-enable", "add-after-delete", "mldsa-prehash-signer", "output-verified")
 	if core.Thorough() {
 		core.DeclareProbes("rsa-primes-located-in-stream", "slhdsa-keygen-seeds-copied", "cost2-produce")
@@ -366,6 +367,7 @@ type world struct {
 	calls   int
 	reruns  int
 
+	rawSeen  map[string]bool
 	statsOn  bool      // this run's IDs count towards the process-wide spread statistics
 	base     io.Reader // crypto/rand.Reader outside the run
 	gseed    uint64    // seed of the library-internal source for this run
@@ -390,16 +392,16 @@ type win struct {
 	// (≥ bulkMin bytes in one request: a library filling a pool). All consumption
 	// accounting and all byte positions of the oracles refer to data; raw is
 	// everything issued, eff[i] the position in raw of data[i].
-	data []byte
-	raw  []byte
-	eff  []int
-	bulk [][2]int // ranges of raw issued to bulk requests
-	plan []req    // every request of the call, absolute offsets (for re-runs)
-	led0 int      // ledger index of raw[0]
-	scripted   int    // scripted 4-byte reads served during the call
-	short      bool   // a short read was served during the call
-	forced     bool   // the forced-rejection pattern was planted into a read of this call
-	reqs       []req  // logical stream requests of the call, offsets relative to start
+	data     []byte
+	raw      []byte
+	eff      []int
+	bulk     [][2]int // ranges of raw issued to bulk requests
+	plan     []req    // every request of the call, absolute offsets (for re-runs)
+	led0     int      // ledger index of raw[0]
+	scripted int      // scripted 4-byte reads served during the call
+	short    bool     // a short read was served during the call
+	forced   bool     // the forced-rejection pattern was planted into a read of this call
+	reqs     []req    // logical stream requests of the call, offsets relative to start
 }
 
 // bracket runs one call of tink and returns its consumption window.
@@ -442,6 +444,9 @@ func (w *world) bracket(where string, f func()) win {
 	wn.plan = append([]req(nil), w.sr.reqs...)
 	isBulk := make([]bool, len(wn.raw))
 	for _, q := range wn.plan {
+		if q.n >= bulkMin {
+			bulkSeen = true
+		}
 		if q.n >= bulkMin && q.off >= start && q.off+uint64(q.n) <= end {
 			a := int(q.off - start)
 			wn.bulk = append(wn.bulk, [2]int{a, a + q.n})
@@ -621,6 +626,127 @@ func (w *world) fromInternal(wn win, loc, field string, orig []byte, perByte boo
 		w.r.Logf("  %s: not issued through crypto/rand.Reader; accepted as library-internal randomness after %d re-runs", key, len(samples)+1)
 	}
 	return true, ""
+}
+
+// markEff records in the ledger that data[from:to) of the call explains a judged field.
+func (w *world) markEff(wn win, from, to int) {
+	for i := from; i < to && i < len(wn.eff); i++ {
+		a := wn.led0 + wn.eff[i]
+		ledger.mark(a, a+1)
+	}
+}
+
+func overlaps(a, b int, excl [][2]int) bool {
+	for _, x := range excl {
+		if a < x[1] && x[0] < b {
+			return true
+		}
+	}
+	return false
+}
+
+// explainCopy explains a field that is a copy of random bytes, in this order:
+//
+//	a. a contiguous range of data[lo:hi) — the bytes issued to ordinary requests
+//	   during this very call — outside excl (ranges sibling fields use); idx ≥ 0;
+//	b. bytes of a bulk fetch made during this call, or bytes issued before the
+//	   call, that no judged field has used yet (a library that buffers
+//	   randomness); if only USED bytes match, the randomness is handed out twice:
+//	   C20/randomness-reused;
+//	c. fresh randomness of the seeded library-internal source (fromInternal);
+//	d. otherwise the violation origKey.
+//
+// Whatever explains the field is marked used in the ledger.
+func (w *world) explainCopy(wn win, loc, field string, v []byte, lo, hi int, excl [][2]int, origKey, origDetail string, redo func() []byte) (idx int, ok bool) {
+	r := w.r
+	if hi > len(wn.data) {
+		hi = len(wn.data)
+	}
+	if lo > hi {
+		lo = hi
+	}
+	if len(v) > 0 {
+		for pos := lo; pos+len(v) <= hi; {
+			i := bytes.Index(wn.data[pos:hi], v)
+			if i < 0 {
+				break
+			}
+			if a := pos + i; !overlaps(a, a+len(v), excl) {
+				w.markEff(wn, a, a+len(v))
+				w.oracles["copy"] = true
+				if wn.short {
+					r.Probe("field-delivered-by-short-reads")
+				}
+				return a, true
+			}
+			pos += i + 1
+		}
+	}
+	key := loc + "." + field
+	reused := func(where string) (int, bool) {
+		r.Violation("C20/randomness-reused:"+key, fmt.Sprintf("the %s %s consists of bytes %s that already make up an earlier judged field: the same random bytes were handed out twice", field, core.Hex(v, 40), where))
+		return -1, false
+	}
+	if len(v) > 0 {
+		for _, b := range wn.bulk {
+			if i := bytes.Index(wn.raw[b[0]:b[1]], v); i >= 0 {
+				a := wn.led0 + b[0] + i
+				if ledger.usedAny(a, a+len(v)) {
+					if len(v) >= 7 {
+						return reused("of a bulk fetch made during this call")
+					}
+					continue
+				}
+				ledger.mark(a, a+len(v))
+				pooledSeen = true
+				w.oracles["pooled"] = true
+				r.Probe("field-from-bulk-fetch-of-this-call:" + key)
+				return -1, true
+			}
+		}
+		switch at, st := ledger.find(v, wn.led0); st {
+		case ledgerFresh:
+			ledger.mark(at, at+len(v))
+			pooledSeen = true
+			w.oracles["pooled"] = true
+			r.Probe("field-from-earlier-issued-bytes:" + key)
+			if r.Tracing() {
+				r.Logf("  %s: made of bytes issued %d bytes before this call and not used since", key, wn.led0-at)
+			}
+			return -1, true
+		case ledgerUsed:
+			if len(v) >= 7 { // a shorter field can coincide with some of the last 2^20 issued bytes by chance
+				return reused(fmt.Sprintf("issued %d bytes before this call", wn.led0-at))
+			}
+		}
+	}
+	if good, why := w.fromInternal(wn, loc, field, v, true, redo); !good {
+		r.Violation(origKey, origDetail+"; nor bytes issued earlier and still unused, nor library-internal randomness: "+why)
+		return -1, false
+	}
+	return -1, true
+}
+
+// underPooledRNG: an output that is a function of the draw got fewer seam
+// bytes during its call than its scheme needs. If this process has seen the
+// library buffer randomness (some field was explained by earlier-issued
+// bytes), the missing bytes may come out of that buffer, which the harness
+// cannot see into: the call is then repeated twice on the restored stream and
+// the three outputs must be pairwise different. Without observed buffering the
+// strict rule stays.
+func (w *world) underPooledRNG(wn win, loc, field string, orig []byte, redo func() []byte) bool {
+	if !pooledSeen || len(orig) == 0 {
+		return false
+	}
+	var a, b []byte
+	w.replay(wn, loc+"."+field, func() { a = append([]byte(nil), redo()...) })
+	w.replay(wn, loc+"."+field, func() { b = append([]byte(nil), redo()...) })
+	if len(a) == 0 || len(b) == 0 || bytes.Equal(a, b) || bytes.Equal(a, orig) || bytes.Equal(b, orig) {
+		return false
+	}
+	w.oracles["pooled"] = true
+	w.r.Probe("function-output-under-pooled-rng:" + loc + "." + field)
+	return true
 }
 
 // fnSpec describes one sensitivity check.
@@ -832,6 +958,53 @@ func copiedDisjoint(material []byte, secrets []secretField) bool {
 	return true
 }
 
+// explainSecrets: the key material is not made of bytes of ordinary requests
+// of its own call; each secret must then be explained by the rest of the
+// ladder (bulk fetch / earlier-issued unused bytes), or the material as a
+// whole by the library-internal source.
+func (w *world) explainSecrets(wn win, loc string, secrets []secretField, cat []byte, origKey, origDetail string, redoCat func() []byte) bool {
+	all := len(secrets) > 0
+	for _, sec := range secrets {
+		if len(sec.data) < 7 {
+			all = false
+			break
+		}
+		found := false
+		for _, b := range wn.bulk {
+			if i := bytes.Index(wn.raw[b[0]:b[1]], sec.data); i >= 0 && !ledger.usedAny(wn.led0+b[0]+i, wn.led0+b[0]+i+len(sec.data)) {
+				ledger.mark(wn.led0+b[0]+i, wn.led0+b[0]+i+len(sec.data))
+				found = true
+				break
+			}
+		}
+		if !found {
+			switch at, st := ledger.find(sec.data, wn.led0); st {
+			case ledgerFresh:
+				ledger.mark(at, at+len(sec.data))
+				found = true
+			case ledgerUsed:
+				w.r.Violation("C20/randomness-reused:"+loc+".key", fmt.Sprintf("key material %s consists of bytes issued %d bytes before this call that already make up an earlier judged field", sec.name, wn.led0-at))
+				return false
+			}
+		}
+		if !found {
+			all = false
+			break
+		}
+	}
+	if all {
+		pooledSeen = true
+		w.oracles["pooled"] = true
+		w.r.Probe("field-from-earlier-issued-bytes:" + loc + ".key")
+		return true
+	}
+	if good, why := w.fromInternal(wn, loc, "key", cat, true, redoCat); !good {
+		w.r.Violation(origKey, origDetail+"; nor of bytes issued earlier and still unused, nor library-internal randomness: "+why)
+		return false
+	}
+	return true
+}
+
 func (w *world) genKey(e catalog.Entry) key.Key {
 	r := w.r
 	loc := entryLoc(e)
@@ -891,8 +1064,8 @@ func (w *world) genKey(e catalog.Entry) key.Key {
 			w.t.Fatalf("harness: no secret accessor found on %T", k)
 		}
 		if !allCopied {
-			if good, why := w.fromInternal(wn, loc, "key", cat, true, keyField); !good {
-				r.Violation("C20/key-not-from-rng:"+loc, fmt.Sprintf("%s: key material %s is not made of disjoint ranges of the %d bytes issued during key generation; nor is it library-internal randomness: %s", e.Name, core.Hex(cat, 40), len(material), why))
+			if !w.explainSecrets(wn, loc, secrets, cat, "C20/key-not-from-rng:"+loc,
+				fmt.Sprintf("%s: key material %s is not made of disjoint ranges of the %d bytes issued during key generation", e.Name, core.Hex(cat, 40), len(material)), keyField) {
 				return nil
 			}
 			keyInternal = true
@@ -918,7 +1091,7 @@ func (w *world) genKey(e catalog.Entry) key.Key {
 			w.rsaKeygen(e, loc, wn, id, k, secrets)
 		} else if T < idLen+need {
 			// the key did not (fully) come through the seam
-			if !keyInternal {
+			if !keyInternal && !w.underPooledRNG(wn, loc, "key", cat, keyField) {
 				if good, why := w.fromInternal(wn, loc, "key", cat, false, keyField); !good {
 					r.Violation("C20/short-consumption:"+loc+".keygen", fmt.Sprintf("%s: key generation consumed %d random bytes, the scheme needs %d; nor is the key library-internal randomness: %s", e.Name, T, idLen+need, why))
 					return nil
@@ -1204,10 +1377,10 @@ func (w *world) mgrAdd() {
 	if collisions > 0 {
 		r.Probe("redraw-on-collision")
 	}
-	if off == 0 {
+	if len(consumed) > 0 && off == 0 {
 		r.Probe("scripted-fresh-id")
 	} else {
-		w.noteID(id) // drawn from the stream, not taken from the harness's script
+		w.noteID(id) // drawn by the manager, not taken from the harness's script
 	}
 	w.oracles["id"] = true
 	w.used[id] = true
@@ -1239,23 +1412,25 @@ func (w *world) mgrAdd() {
 		cat = append(cat, s.data...)
 	}
 	if !copiedDisjoint(without(wn.data, idFrom, idTo), secrets) {
-		good, why := w.fromInternal(wn, entryLoc(e), "key", cat, true, func() []byte {
-			_, k2, err2 := newKeyVia(e) // the same key-creation path on a scratch manager
-			if err2 != nil || k2 == nil {
-				return nil
-			}
-			var sec []secretField
-			secretsOf(k2, "", 0, &sec)
-			var c []byte
-			for _, s := range sec {
-				c = append(c, s.data...)
-			}
-			return c
-		})
-		if !good {
-			r.Violation("C20/key-not-from-rng:"+entryLoc(e), fmt.Sprintf("%s added to a manager: key material is not made of disjoint ranges of the bytes issued during the call; nor is it library-internal randomness: %s", e.Name, why))
+		if !w.explainSecrets(wn, entryLoc(e), secrets, cat, "C20/key-not-from-rng:"+entryLoc(e),
+			fmt.Sprintf("%s added to a manager: key material is not made of disjoint ranges of the bytes issued during the call", e.Name),
+			func() []byte {
+				_, k2, err2 := newKeyVia(e) // the same key-creation path on a scratch manager
+				if err2 != nil || k2 == nil {
+					return nil
+				}
+				var sec []secretField
+				secretsOf(k2, "", 0, &sec)
+				var c []byte
+				for _, s := range sec {
+					c = append(c, s.data...)
+				}
+				return c
+			}) {
 			return
 		}
+	} else {
+		w.markEff(wn, idTo, len(wn.data))
 	}
 	if len(cat) > 0 {
 		if w.keyMat[string(cat)] {
@@ -1310,6 +1485,44 @@ func (w *world) idSpread() {
 	}
 	w.oracles["idspread"] = true
 	w.r.Probe("id-spread-batch")
+}
+
+// rawRandom uses the public subtle/random API the way a caller may: take n
+// random bytes, then append to the returned slice and write into its spare
+// capacity. The bytes handed out are a copy-type field like any other; and
+// whatever the caller does to ITS slice must not reach random bytes the
+// library hands out later (they would no longer be explained by anything).
+func (w *world) rawRandom() {
+	n := rapid.IntRange(8, 96).Draw(w.t, "rawLen")
+	loc := "subtle/random.GetRandomBytes"
+	var b []byte
+	wn := w.bracket(loc, func() { b = subtlerandom.GetRandomBytes(uint32(n)) })
+	got := append([]byte(nil), b...)
+	w.r.Obs("raw random", got)
+	if len(got) != n {
+		w.r.Violation("C20/provenance:"+loc+".bytes", fmt.Sprintf("asked for %d bytes, got %d", n, len(got)))
+		return
+	}
+	key, detail := "C20/provenance:"+loc+".bytes", fmt.Sprintf("%d bytes %s are not a contiguous range of the bytes issued during this call [%d,%d)", n, core.Hex(got, 40), wn.start, wn.end)
+	if len(wn.data) < n {
+		key, detail = "C20/short-consumption:"+loc+".bytes", fmt.Sprintf("the call consumed %d random bytes for a result of %d", len(wn.data), n)
+	}
+	if _, ok := w.explainCopy(wn, loc, "bytes", got, 0, len(wn.data), nil, key, detail, func() []byte { return subtlerandom.GetRandomBytes(uint32(n)) }); !ok {
+		return
+	}
+	if w.rawSeen[string(got)] {
+		w.r.Violation("C20/repeat:"+loc+".bytes", fmt.Sprintf("GetRandomBytes(%d) returned %s twice", n, core.Hex(got, 40)))
+		return
+	}
+	w.rawSeen[string(got)] = true
+	// the caller's use of its own slice
+	payload := bytes.Repeat([]byte{0xee}, 64)
+	b = append(b, payload...)
+	spare := b[len(b):cap(b)]
+	for i := range spare {
+		spare[i] = 0xee
+	}
+	w.r.Probe("caller-appends-to-random-bytes")
 }
 
 // mgrOp drives the other operations of the persistent manager; none of them
@@ -1503,32 +1716,21 @@ func (w *world) produce(ki int) {
 	// fresh library-internal randomness (idx = -1, ok). Otherwise the violation
 	// the seam oracle would have raised is raised: short consumption if the
 	// call drew fewer than shortNeed bytes, provenance if not.
-	explain := func(field string, v, hay []byte, shortField string, shortNeed int, extract func(o []byte) []byte) (idx int, ok bool) {
-		if len(v) > 0 {
-			if idx = bytes.Index(hay, v); idx >= 0 {
-				w.oracles["copy"] = true
-				if wn.short {
-					r.Probe("field-delivered-by-short-reads")
-				}
-				return idx, true
-			}
-		}
+	explain := func(field string, v []byte, lo, hi int, excl [][2]int, shortField string, shortNeed int, extract func(o []byte) []byte) (idx int, ok bool) {
 		key := "C20/provenance:" + loc + "." + field
 		detail := fmt.Sprintf("%s: %s %s is not a contiguous range of the bytes issued during this call [%d,%d) = %s", ks.e.Name, field, core.Hex(v, 40), wn.start, wn.end, core.Hex(wn.data, 48))
 		if T < shortNeed {
 			key = "C20/short-consumption:" + loc + "." + shortField
 			detail = fmt.Sprintf("%s: the call consumed %d random bytes, the %s needs %d", ks.e.Name, T, shortField, shortNeed)
 		}
-		good, why := w.fromInternal(wn, loc, field, v, true, redoField(extract))
-		if !good {
-			r.Violation(key, detail+"; nor is it library-internal randomness: "+why)
-			return -1, false
-		}
-		return -1, true
+		return w.explainCopy(wn, loc, field, v, lo, hi, excl, key, detail, redoField(extract))
 	}
 	// explainFn: the same for an output that is a function of the draw and got
 	// fewer seam bytes than its scheme needs.
 	explainFn := func(field string, v []byte, need int, extract func(o []byte) []byte) bool {
+		if w.underPooledRNG(wn, loc, field, v, redoField(extract)) {
+			return true
+		}
 		good, why := w.fromInternal(wn, loc, field, v, false, redoField(extract))
 		if !good {
 			r.Violation("C20/short-consumption:"+loc+"."+field, fmt.Sprintf("%s: the call consumed %d random bytes, the %s needs %d; nor is it library-internal randomness: %s", ks.e.Name, T, field, need, why))
@@ -1559,7 +1761,7 @@ func (w *world) produce(ki int) {
 			return
 		}
 		iv := orig[p.prefixLen : p.prefixLen+n]
-		if _, ok := explain("iv", iv, wn.data, "iv", n, func(o []byte) []byte {
+		if _, ok := explain("iv", iv, 0, T, nil, "iv", n, func(o []byte) []byte {
 			if len(o) < p.prefixLen+n {
 				return nil
 			}
@@ -1587,21 +1789,16 @@ func (w *world) produce(ki int) {
 				return o[from:to]
 			}
 		}
-		a, ok := explain("salt", salt, wn.data, "header", k+streamNoncePrefixLen, hdr(1, 1+k))
+		a, ok := explain("salt", salt, 0, T, nil, "header", k+streamNoncePrefixLen, hdr(1, 1+k))
 		if !ok {
 			return
 		}
 		// the nonce prefix is a separate draw: a range disjoint from the salt's
-		rest := wn.data
+		var excl [][2]int
 		if a >= 0 {
-			rest = nil
-			if bytes.Index(wn.data[:a], np) >= 0 {
-				rest = wn.data[:a]
-			} else if bytes.Index(wn.data[a+k:], np) >= 0 {
-				rest = wn.data[a+k:]
-			}
+			excl = [][2]int{{a, a + k}}
 		}
-		if _, ok := explain("noncePrefix", np, rest, "header", k+streamNoncePrefixLen, hdr(1+k, 1+k+streamNoncePrefixLen)); !ok {
+		if _, ok := explain("noncePrefix", np, 0, T, excl, "header", k+streamNoncePrefixLen, hdr(1+k, 1+k+streamNoncePrefixLen)); !ok {
 			return
 		}
 		w.noRepeat(ks, "salt", salt)
@@ -1663,7 +1860,7 @@ func (w *world) produce(ki int) {
 			if from > T {
 				from = T
 			}
-			idx, ok := explain("dem-iv", iv, wn.data[from:], "ephemeral", kem.randLen+kem.demIV, part(pl+kem.encLen, pl+kem.encLen+kem.demIV))
+			idx, ok := explain("dem-iv", iv, from, T, nil, "ephemeral", kem.randLen+kem.demIV, part(pl+kem.encLen, pl+kem.encLen+kem.demIV))
 			if !ok {
 				return
 			}
@@ -1806,33 +2003,26 @@ func (w *world) checkEnvelope(ks *keyState, p *prim, loc string, wn win, out []b
 			return o[4+l : 4+l+p.dekIV]
 		}
 	}
-	seamNeed := 16
-	a := bytes.Index(wn.data, iv1)
-	if a < 0 {
-		if good, why := w.fromInternal(wn, loc, "kek-iv", iv1, true, redo(1)); !good {
-			bad("kek-iv", "KEK IV "+core.Hex(iv1, 24)+" is not a range of the issued bytes, nor library-internal randomness: "+why)
-			return
-		}
-	} else {
-		seamNeed += kekIV
+	T := len(wn.data)
+	detail := func(what string, v []byte) string {
+		return fmt.Sprintf("%s: %s %s is not a range of the bytes issued during the call [%d,%d) = %s", ks.e.Name, what, core.Hex(v, 24), wn.start, wn.end, core.Hex(wn.data, 48))
 	}
-	found2 := false
-	if a < 0 {
-		found2 = bytes.Index(wn.data, iv2) >= 0
-	} else {
-		found2 = bytes.Index(wn.data[:a], iv2) >= 0 || bytes.Index(wn.data[a+kekIV:], iv2) >= 0
-	}
-	if !found2 {
-		if good, why := w.fromInternal(wn, loc, "dek-iv", iv2, true, redo(2)); !good {
-			bad("dek-iv", "DEK IV "+core.Hex(iv2, 24)+" is not a range of the issued bytes disjoint from the KEK IV, nor library-internal randomness: "+why)
-			return
-		}
-	} else {
-		seamNeed += p.dekIV
-	}
-	if len(wn.data) < seamNeed {
-		r.Violation("C20/short-consumption:"+loc, fmt.Sprintf("%s: the call consumed %d random bytes; a fresh DEK and the IVs drawn through crypto/rand.Reader need at least %d", ks.e.Name, len(wn.data), seamNeed))
+	a, ok := w.explainCopy(wn, loc, "kek-iv", iv1, 0, T, nil, "C20/provenance:"+loc+".kek-iv", detail("KEK IV", iv1), redo(1))
+	if !ok {
 		return
+	}
+	var excl [][2]int
+	seamIV := 0
+	if a >= 0 {
+		excl = append(excl, [2]int{a, a + kekIV})
+		seamIV += kekIV
+	}
+	a2, ok := w.explainCopy(wn, loc, "dek-iv", iv2, 0, T, excl, "C20/provenance:"+loc+".dek-iv", detail("DEK IV", iv2), redo(2))
+	if !ok {
+		return
+	}
+	if a2 >= 0 {
+		seamIV += p.dekIV
 	}
 	var dek []byte
 	var err error
@@ -1844,12 +2034,45 @@ func (w *world) checkEnvelope(ks *keyState, p *prim, loc string, wn win, out []b
 		r.Violation("C20/invalid-output:"+loc, fmt.Sprintf("%s: the KEK cannot open the encrypted DEK: %v", ks.e.Name, err))
 		return
 	}
+	// the DEK's key bytes: a 16-byte run of the bytes issued during the call, or of
+	// unused earlier-issued bytes (the rest of the ladder)
 	found := false
 	for i := 0; i+16 <= len(wn.data) && !found; i++ {
 		found = bytes.Contains(dek, wn.data[i:i+16])
 	}
+	if found {
+		if T < 16+seamIV {
+			r.Violation("C20/short-consumption:"+loc, fmt.Sprintf("%s: the call consumed %d random bytes; a fresh DEK and the IVs drawn during the call need at least %d", ks.e.Name, T, 16+seamIV))
+			return
+		}
+	} else {
+		for i := 0; i+16 <= len(dek) && !found; i++ {
+			run := dek[i : i+16]
+			for _, b := range wn.bulk {
+				if j := bytes.Index(wn.raw[b[0]:b[1]], run); j >= 0 && !ledger.usedAny(wn.led0+b[0]+j, wn.led0+b[0]+j+16) {
+					ledger.mark(wn.led0+b[0]+j, wn.led0+b[0]+j+16)
+					found = true
+				}
+			}
+			if !found {
+				switch at, st := ledger.find(run, wn.led0); st {
+				case ledgerFresh:
+					ledger.mark(at, at+16)
+					found = true
+				case ledgerUsed:
+					r.Violation("C20/randomness-reused:"+loc+".dek", fmt.Sprintf("%s: the DEK holds bytes issued %d bytes before this call that already make up an earlier judged field", ks.e.Name, wn.led0-at))
+					return
+				}
+			}
+		}
+		if found {
+			pooledSeen = true
+			w.oracles["pooled"] = true
+			r.Probe("field-from-earlier-issued-bytes:" + loc + ".dek")
+		}
+	}
 	if !found {
-		bad("dek", "the serialized DEK holds no 16-byte run of the issued bytes")
+		bad("dek", "the serialized DEK holds no 16-byte run of the bytes issued during the call, nor of unused earlier-issued bytes")
 		return
 	}
 	w.oracles["copy"] = true
@@ -1869,6 +2092,18 @@ func run(t *rapid.T) {
 	buildLists()
 	r := core.Begin(t)
 	rngSeed := rapid.Uint64().Draw(t, "rngSeed")
+	// rapid repeats seeds (small values, shrinking re-executions), and equal seeds
+	// give equal streams. That is harmless for a library without memory; one that
+	// buffers random bytes across calls would be handed the same bytes twice BY
+	// THE HARNESS and then rightly be seen to reuse them. So from the moment this
+	// process has seen the library fetch in bulk or serve a field from earlier
+	// bytes, every run gets a stream of its own. (On a tree that never does, the
+	// stream stays the pure function of the drawn seed it has always been.)
+	runsStarted++
+	if pooledSeen || bulkSeen {
+		rngSeed ^= (runsStarted + 1) * 0x9e3779b97f4a7c15
+		r.Probe("stream-made-unique-for-stateful-library")
+	}
 	g := simrng.New(rngSeed)
 	g.LogOn = true
 	// stdlib-internal randomness (ML-KEM encapsulation, Miller-Rabin bases) becomes a function of the run, too
@@ -1881,7 +2116,7 @@ func run(t *rapid.T) {
 	defer func() { rand.Reader = old }()
 
 	w := &world{r: r, t: t, g: g, sr: sr, mgr: keyset.NewManager(), used: map[uint32]bool{}, mgrGone: map[uint32]bool{}, mgrOff: map[uint32]bool{}, keyMat: map[string]bool{},
-		oracles: map[string]bool{}, faults: map[string]bool{}, lastKey: -1, base: old, gseed: gseed, internal: map[string]int{}}
+		oracles: map[string]bool{}, faults: map[string]bool{}, lastKey: -1, base: old, gseed: gseed, internal: map[string]int{}, rawSeen: map[string]bool{}}
 	r.Logf("short reads: max %d", sr.max)
 	w.idStatsStart(rngSeed)
 	if rapid.IntRange(0, 31).Draw(t, "idSpreadBatch") == 31 {
@@ -1898,7 +2133,7 @@ func run(t *rapid.T) {
 	}
 	nCalls := rapid.IntRange(1, maxCalls).Draw(t, "nCalls")
 	ops := []string{"produce", "produce", "produce", "produce", "produce", "produce", "newprim", "newkey", "mgradd", "mgradd", "mgradd",
-		"mgrdelete", "mgrdelete", "mgrsetprimary", "mgrdisable"}
+		"mgrdelete", "mgrdelete", "mgrsetprimary", "mgrdisable", "rawrandom"}
 	for i := 0; i < nCalls; i++ {
 		op := rapid.SampledFrom(ops).Draw(t, "op")
 		if len(w.keys) == 0 && (op == "produce" || op == "newprim") {
@@ -1915,6 +2150,8 @@ func run(t *rapid.T) {
 			w.mgrAdd()
 		case "mgrdelete", "mgrsetprimary", "mgrdisable":
 			w.mgrOp(op)
+		case "rawrandom":
+			w.rawRandom()
 		}
 	}
 	g.ClearScript()
